@@ -38,3 +38,28 @@ def grammar(**kw):
 def grammar_lst(**kw):
     """Leaf and Lst only (no recursion through ALst): small enough for two-parent obligations"""
     return extract_grammar([Leaf, Lst], START, **kw)
+
+
+@dataclass
+class Blk(Root):
+    xs: Annotated[list[Leaf], ListSizeBetween(1, 2)]
+    r: Root
+
+
+@dataclass
+class TBlk(Root):
+    t: tuple[Leaf, Leaf]
+    r: Root
+
+
+def grammar_blk(**kw):
+    """a container-typed field FOLLOWED by a node-typed field (sized list, then tuple)"""
+    return extract_grammar([Leaf, Blk, TBlk], START, **kw)
+
+
+class _Blk:
+    CLASSES = [Leaf, Blk, TBlk]
+    START = Root
+
+
+VARIANTS = {"grammar_blk": _Blk}
